@@ -25,6 +25,11 @@ fn pattern8(k: usize) -> &'static [u8] {
         5 => &[195, 191, 97],
         6 => &[194, 128],
         7 => &[215, 144, 32],
+        // character widths 1 1 2 1 3 1 4 2 2 3 2 4 3 3 4 4 (cyclically every ordered pair of widths is adjacent once)
+        8 => &[
+            97, 97, 195, 169, 97, 226, 130, 172, 97, 240, 159, 146, 169, 195, 169, 195, 169, 226, 130, 172, 195, 169, 240, 159, 146, 169, 226, 130, 172, 226, 130, 172, 240,
+            159, 146, 169, 240, 159, 146, 169,
+        ],
         _ => &[65],
     }
 }
@@ -37,6 +42,7 @@ fn pattern16(k: usize) -> &'static [u16] {
         5 => &[255, 97],
         6 => &[128],
         7 => &[1488, 32],
+        8 => &[97, 97, 233, 97, 8364, 97, 55357, 56489, 233, 233, 8364, 233, 55357, 56489, 8364, 8364, 55357, 56489, 55357, 56489],
         _ => &[65],
     }
 }
@@ -494,7 +500,7 @@ pub fn mem(cx: &mut Ctx, which: &str) {
     };
     // UTF-8-ish inputs: clean fills and one defect at structured positions, two defects seeded
     for &len in ls.iter() {
-        for fill in 1..=7usize {
+        for fill in 1..=8usize {
             let clean = Recipe { u16: false, fill, len, patch: vec![] };
             let valid = std::str::from_utf8(&clean.bytes()).is_ok();
             for f in UTF8_FNS.iter().filter(|f| want(f)) {
@@ -631,7 +637,7 @@ pub fn mem(cx: &mut Ctx, which: &str) {
     }
     // UTF-16 inputs
     for &len in ls.iter() {
-        for fill in 1..=7usize {
+        for fill in 1..=8usize {
             let clean = Recipe { u16: true, fill, len, patch: vec![] };
             for f in UTF16_FNS.iter().filter(|f| want(f)) {
                 if *f == "convert_utf16_to_utf8_partial" {
